@@ -71,6 +71,16 @@ Theorem C02_guard_nonvacuous :
 Proof. exact (conj static_guard_nonvacuous guard_nonvacuous). Qed.
 Print Assumptions C02_guard_nonvacuous.
 
+(* Non-vacuity for allOf branches WITHOUT properties (allOf:[{$ref: Base}, {required:[label, owner]}]): the document
+   meets the guard of C02_partial, and the inherited properties come out required through two allOf levels. *)
+Theorem C02_required_only_branch :
+  (core_spec spec_strict = true /\ ranked_b rk_strict spec_strict = true /\ depth_ok rk_strict spec_strict default_max_depth = true)
+  /\ model_fields (parse_doc default_max_depth spec_strict) sLeaf
+     = Some [(sident, true, TPrim PInteger); (slabel, true, TPrim PString); (sowner, true, TRef sAccount); (snote, false, TPrim PString)]
+  /\ declared spec_strict sLeaf = model_fields (parse_doc default_max_depth spec_strict) sLeaf.
+Proof. exact required_only_branch. Qed.
+Print Assumptions C02_required_only_branch.
+
 Theorem C02_refuted_F02a :
   guard_F02a (parse_doc default_max_depth spec_F02a) = false
   /\ ~ faithful spec_F02a (parse_doc default_max_depth spec_F02a) sUser
